@@ -77,6 +77,9 @@ def NumVal.lt : NumVal → NumVal → Prop
   | .fin p, .fin q => p < q
   | _, _ => False
 
+instance (a b : NumVal) : Decidable (NumVal.lt a b) := by
+  cases a <;> cases b <;> unfold NumVal.lt <;> exact inferInstance
+
 def NumVal.isNum : NumVal → Bool
   | .notNum => false
   | _ => true
